@@ -41,9 +41,25 @@ def main():
     bad = 0
     n = 0
     for name, spec in all_specs():
+        from mirsmt.pipeline import validity
+        pre = validity(spec)
         s = z3.Solver()
+        s.add(*pre)
         s.check()
         models = [('default', s.model())]
+        # a second instantiation: every symbolic flag on where the validity preconditions allow it, limits non-zero
+        o = z3.Optimize()
+        o.add(*pre)
+        ents = list(spec.memories) + list(spec.tables) + list(spec.globals) + [i for i in spec.imports if i['kind'] != 'func']
+        for e in ents:
+            for k in ('memory64', 'table64', 'shared', 'mutable'):
+                b = e.get(k)
+                if isinstance(b, z3.BoolRef) and not (z3.is_true(b) or z3.is_false(b)):
+                    o.add_soft(b)
+            if e.get('initial') is not None and not z3.is_bv_value(e['initial'].t):
+                o.add_soft(e['initial'].t != 0)
+        if o.check() == z3.sat:
+            models.append(('flags-on', o.model()))
         for label, m in models:
             try:
                 J = witness.spec_json(spec, m, table)
